@@ -79,7 +79,7 @@ N == Len(inst.ps)
 (* ---- the summary of individual i ---------------------------------------------------- *)
 Project(t, i) == [c \in 1..inst.c |-> [s \in 1..inst.s |-> t[c][s][i]]]
 Summary(t, i, burn, lb) ==
-  LET chs == [c \in 1..inst.c |-> ChainRetained(Project(t, i), inst.c, inst.s, c, burn, lb)]
+  LET chs == TLCEval([c \in 1..inst.c |-> ChainRetained(Project(t, i), inst.c, inst.s, c, burn, lb)])
   IN  SummaryOf(chs, inst.ps[i], lb[Len(lb)] + 1, inst.kind, Thetas)
 
 Summaries(t, burn, lb) == TLCEval([i \in 1..N |-> Summary(t, i, burn, lb)])
@@ -190,7 +190,7 @@ SameSupportNoIncongruence ==
 
 (* chains whose mode support stays below the threshold are not compared: the flag is the flag of the   *)
 (* qualifying chains alone (whatever the other chains hold)                                             *)
-ChainsOf(i) == [c \in 1..inst.c |-> ChainRetained(Project(tr, i), inst.c, inst.s, c, b, lab)]
+ChainsOf(i) == TLCEval([c \in 1..inst.c |-> ChainRetained(Project(tr, i), inst.c, inst.s, c, b, lab)])
 BelowThresholdChainsIgnored ==
   Done => \A i \in 1..N : LET chs == ChainsOf(i) IN \A q \in 1..Len(Thetas) :
             sm[i].inc[q] = IncFlags(OnlyChains(chs, Qualifying(chs, Thetas[q])), inst.ps[i], inst.kind, Thetas[q])
